@@ -23,6 +23,7 @@ type Solver struct {
 	Errors  int
 	Time    time.Duration
 	dead    bool
+	poolKey string
 }
 
 // NewSolver starts a solver. kind is "z3", "z3-new" or "cvc5".
